@@ -84,8 +84,11 @@ class Spec(PureLibMixin, BaseSpec):
         if self.is_table(I, v):
             key = I.lift(key)
             known = z3.Select(z3.Select(st.h.sdom, V.id(self.CHANNELS)), key)
-            self.oblige(I, "G2/channel-entry-created-atomically(table-lock-held-or-entry-known-to-exist)", z3.Or(known, self.holds(I, self.TABLE_LOCK)),
-                        meta={"witness": "lazy-creation"})
+            # decided here, on the path condition (the table is an arbitrary input: membership of the key is known only if the
+            # code established it, e.g. by an `in` test), so that the verdict never depends on a quantifier-laden query
+            ok = st.valid(z3.Or(known, self.holds(I, self.TABLE_LOCK)))
+            self.oblige(I, "G2/channel-entry-created-atomically(table-lock-held-or-entry-known-to-exist)", z3.BoolVal(bool(ok)),
+                        meta={"witness": "lazy-creation", "held": [str(h_) for h_ in st.ghost.get("held", [])]})
             rid = V.id(self.CHANNELS)
             st.h.sdom = z3.Store(st.h.sdom, rid, z3.Store(z3.Select(st.h.sdom, rid), key, True))
             st.assume(ChanOfDeque(QOf(V.s(key))) == V.s(key))
